@@ -1,5 +1,7 @@
-(* FormulaSheet — C14, shared and array formulas of xls: the FORMULA side of the sheet loop of
-   Xls::parse_workbook.  Definitions only (proofs: FormulaSheet_proofs.v).
+(* FormulaSheet — C14, shared and array formulas.  First part, xls: the FORMULA side of the sheet loop of
+   Xls::parse_workbook (proofs: FormulaSheet_proofs.v).  Second part, xlsb: XlsbCellsReader::next_formula
+   as driven by Xlsb::worksheet_formula (section XlsbSheet at the end; proofs: FormulaSheetB_proofs.v).
+   Definitions only.
 
    Modelled Rust code (src/xls.rs, commit "fix: xls cells of shared and array formulas were reported
    with an empty formula"), from the framed records of one sheet substream on (the framing — RecordIter,
@@ -210,3 +212,251 @@ Definition wf_layout (l : list fitem) : Prop :=
   forallb wf_fitem l = true /\ NoDup (flat_map first_of l).
 
 End XlsSheet.
+
+(* ================================================================== xlsb ==========
+   XlsbCellsReader::next_formula and Xlsb::worksheet_formula (src/xlsb/cells_reader.rs, src/xlsb/mod.rs,
+   commit "fix: xlsb cells of shared and array formulas were reported without their formula"), from
+   the framed records that follow BrtBeginSheetData on (the scan of [new] up to that record and the
+   framing — RecordIter — are C03's XlsbRec.v; the VALUE side, next_cell, is untouched by the fix
+   except that it takes the type of a record read ahead, which never exists when only next_cell runs):
+
+     loop { typ = typ_ahead.take() or read_type()?;  len = fill_buffer()?;  record = &buf[..len];
+       0x0008 BrtFmlaString  check_len(len, 12)?; cch = u32 @8; formula_rgce(record, 14 + cch * 2)?
+       0x0009 BrtFmlaNum     formula_rgce(record, 18)?
+       0x000A | 0x000B       formula_rgce(record, 11)?
+       0x0000 BrtRowHdr      check_len(len, 4)?; row = u32 @0; if row > 0x100000 { return Ok(None) }; continue
+       0x0092 BrtEndSheetData return Ok(None)
+       _                     continue }
+     value = parse_formula(rgce, extern_sheets, metadata_names, None)?;  pos = (row, u32 @0 of the record)
+     if let ([0x01, r0, r1, r2, r3], Some(col)) = (rgce, extra.get(4..8)) {       // PtgExp; column in rgcb
+         first = (u32 r0..r3, u32 col);
+         typ = read_type()?;                                                      // one record ahead
+         if typ == 0x01AB || typ == 0x01AA { len = fill_buffer()?;               // BrtShrFmla / BrtArrFmla
+             (rgce, _) = formula_rgce(&buf[..len], if typ == 0x01AB { 16 } else { 17 })?;
+             shared.insert(pos, rgce.to_vec()) }
+         else { typ_ahead = Some(typ) }                                           // handled by the next turn
+         if let Some(rgce) = shared.get(&first) { value = parse_formula(rgce, .., Some(pos))? } }
+     Ok(Some(Cell::new(pos, value)))
+   formula_rgce(record, start): check_len(len, start + 4)?; cce = u32 @start; check_len(len, start + 4 + cce)?;
+     record[start + 4..].split_at(cce)
+   worksheet_formula: while let Some(cell) = next_formula()? { if !cell.val.is_empty() { cells.push(cell) } }
+     Range::from_sparse(cells)
+
+   Representation: the calls of next_formula made by worksheet_formula are fused into one recursion
+   over the record list (a record "read ahead" and handed back through typ_ahead is simply not
+   consumed); running out of records is the I/O error of read_type; the BTreeMap [shared] is an
+   association list with the latest insertion first.  The reused buffer is not part of the state:
+   every read is inside [..len] of the record just filled, or its first four bytes after a length
+   check.  Offsets taken from the file stay in N until they are bounded by the record length. *)
+Section XlsbSheet.
+Variable show_f64 : N -> list N.
+Variable sheets : list (list N).           (* extern_sheets *)
+Variable names : list (list N).            (* metadata.names, name part *)
+
+Definition benv_at (base : option pos) : xlsb_env :=
+  {| be_sheets := sheets; be_names := names; be_base := base |}.
+
+(* formula_rgce(record, start) *)
+Definition formula_rgce (d : list N) (start : N) : outcome (list N * list N) :=
+  if N.of_nat (length d) <? start + 4 then Err FormulaEnv.E_LEN else
+  do cce <- u32_at d (N.to_nat start);
+  if N.of_nat (length d) <? start + 4 + cce then Err FormulaEnv.E_LEN else
+  let tl := skipn (N.to_nat start + 4) d in
+  Ok (firstn (N.to_nat cce) tl, skipn (N.to_nat cce) tl).
+
+(* the formula cell records: where the CellParsedFormula starts; None: not a formula cell *)
+Definition formula_start (t : N) (d : list N) : outcome (option N) :=
+  if t =? 0x0008 then
+    if (length d <? 12)%nat then Err FormulaEnv.E_LEN else
+    do cch <- u32_at d 8; Ok (Some (14 + cch * 2))
+  else if t =? 0x0009 then Ok (Some 18)
+  else if (t =? 0x000A) || (t =? 0x000B) then Ok (Some 11)
+  else Ok None.
+
+(* if let ([0x01, r0, r1, r2, r3], Some(col)) = (rgce, extra.get(4..8)) *)
+Definition exp_target_b (rgce extra : list N) : option pos :=
+  match rgce with
+  | [a; r0; r1; r2; r3] =>
+      if a =? 1 then
+        match skipn 4 extra with
+        | c0 :: c1 :: c2 :: c3 :: _ =>
+            Some (r0 + 256 * (r1 + 256 * (r2 + 256 * r3)), c0 + 256 * (c1 + 256 * (c2 + 256 * c3)))
+        | _ => None
+        end
+      else None
+  | _ => None
+  end.
+
+(* if let Some(rgce) = self.shared.get(&first) { value = parse_formula(rgce, .., Some(pos))? } *)
+Definition resolve_b (shared : list (pos * list N)) (first p : pos) (value : list N) : outcome (list N) :=
+  match lookup first shared with
+  | Some rgce => xlsb_parse_formula show_f64 (benv_at (Some p)) rgce
+  | None => Ok value
+  end.
+
+(* every cell next_formula yields until it returns None, in order *)
+Fixpoint xlsb_formula_loop (recs : list record) (row : N) (shared : list (pos * list N)) {struct recs}
+  : outcome (list (pos * list N)) :=
+  match recs with
+  | [] => Err FormulaEnv.E_IO                                    (* read_type()? at the end of the part *)
+  | (t, d) :: rest =>
+      if t =? 0x0092 then Ok [] else
+      if t =? 0x0000 then
+        if (length d <? 4)%nat then Err FormulaEnv.E_LEN else
+        do r <- u32_at d 0;
+        if 0x100000 <? r then Ok [] else xlsb_formula_loop rest r shared
+      else
+      do st <- formula_start t d;
+      match st with
+      | None => xlsb_formula_loop rest row shared
+      | Some start =>
+          do re <- formula_rgce d start;
+          do value <- xlsb_parse_formula show_f64 (benv_at None) (fst re);
+          do col <- u32_at d 0;
+          let p := (row, col) in
+          match exp_target_b (fst re) (snd re) with
+          | None => do tl <- xlsb_formula_loop rest row shared; Ok ((p, value) :: tl)
+          | Some first =>
+              match rest with
+              | [] => Err FormulaEnv.E_IO                        (* the look-ahead read_type()? *)
+              | (t2, d2) :: rest2 =>
+                  if (t2 =? 0x01AB) || (t2 =? 0x01AA) then
+                    do re2 <- formula_rgce d2 (if t2 =? 0x01AB then 16 else 17);
+                    let shared' := (p, fst re2) :: shared in
+                    do v <- resolve_b shared' first p value;
+                    do tl <- xlsb_formula_loop rest2 row shared'; Ok ((p, v) :: tl)
+                  else
+                    do v <- resolve_b shared first p value;
+                    do tl <- xlsb_formula_loop rest row shared; Ok ((p, v) :: tl)
+              end
+          end
+      end
+  end.
+
+(* the cells worksheet_formula sees, from the records after BrtBeginSheetData *)
+Definition xlsb_sheet_formulas (recs : list record) : outcome (list (pos * list N)) :=
+  xlsb_formula_loop recs 0 [].
+
+(* worksheet_formula of the sheet: cells with an empty text are dropped *)
+Definition xlsb_sheet_formula_range (recs : list record) : outcome (range (list N)) :=
+  do cells <- xlsb_sheet_formulas recs; formula_range false cells.
+
+(* ================================================================== SPEC: the formula layout of an xlsb sheet *)
+(* what stands between the column and the CellParsedFormula of a formula cell record (MS-XLSB
+   2.4.672 BrtFmlaNum, 2.4.673 BrtFmlaString, 2.4.670 BrtFmlaBool, 2.4.671 BrtFmlaError; Cell 2.5.9) —
+   nothing of it matters for the text *)
+Inductive bhead :=
+| HNum (mid : list N)                        (* iStyleRef + flags (4), xnum (8), grbitFlags (2) *)
+| HBool (mid : list N)                       (* iStyleRef + flags (4), bBool (1), grbitFlags (2) *)
+| HErr (mid : list N)                        (* iStyleRef + flags (4), bError (1), grbitFlags (2) *)
+| HStr (sty units grbit : list N).           (* iStyleRef + flags (4), XLWideString of UTF-16 units, grbitFlags (2) *)
+
+Definition bhead_type (h : bhead) : N :=
+  match h with HNum _ => 0x0009 | HBool _ => 0x000A | HErr _ => 0x000B | HStr _ _ _ => 0x0008 end.
+Definition bpre (c : N) (h : bhead) : list N :=
+  le 4 c ++ match h with
+            | HNum mid | HBool mid | HErr mid => mid
+            | HStr sty units grbit => sty ++ le 4 (N.of_nat (length units)) ++ flat_map (le 2) units ++ grbit
+            end.
+(* CellParsedFormula (MS-XLSB 2.5.97.1): cce, rgce, then cb and rgcb = [extra] *)
+Definition cpf_b (rgce extra : list N) : list N := le 4 (N.of_nat (length rgce)) ++ rgce ++ extra.
+(* PtgExp (2.5.97.46): the row of the first cell of the group in the token, its column in rgcb
+   (PtgExtraCol, cb = 4) *)
+Definition cpf_exp_b (first : pos) : list N :=
+  cpf_b (0x01 :: le 4 (fst first)) (le 4 4 ++ le 4 (snd first)).
+Definition enc_bcell (c : N) (h : bhead) (cpf : list N) : record := (bhead_type h, bpre c h ++ cpf).
+(* UncheckedRfX: rwFirst, rwLast, colFirst, colLast *)
+Definition enc_rfx (rng : N * N * N * N) : list N :=
+  match rng with (r0, r1, c0, c1) => le 4 r0 ++ le 4 r1 ++ le 4 c0 ++ le 4 c1 end.
+
+Inductive bitem :=
+| BRow (r : N) (tl : list N)                  (* BrtRowHdr: the row of the cells that follow *)
+| BPlain (p : pos) (h : bhead) (e : expr) (extra : list N)     (* a cell with a formula of its own *)
+| BEmpty (p : pos) (h : bhead) (extra : list N)                (* a formula cell record without tokens (cce = 0) *)
+| BShared (p : pos) (h : bhead) (rng : N * N * N * N) (e : expr) (tl : list N)
+    (* the first cell of a shared group: BrtFmla* [PtgExp p], then BrtShrFmla (rfx = rng) with the
+       shared expression e; tl: what follows the rgce in the record *)
+| BArray (p : pos) (h : bhead) (rng : N * N * N * N) (flags : N) (e : expr) (tl : list N)
+    (* the first cell of an array formula: BrtFmla* [PtgExp p], then BrtArrFmla (rfx, one flag byte) *)
+| BMember (p : pos) (h : bhead) (first : pos)                  (* another cell of a group: PtgExp first *)
+| BOther (t : N) (d : list N).                                 (* a record the formula side ignores *)
+
+Definition enc_bitem (it : bitem) : list record :=
+  match it with
+  | BRow r tl => [(0x0000, le 4 r ++ tl)]
+  | BPlain p h e extra => [enc_bcell (snd p) h (cpf_b (encode_xlsb e) extra)]
+  | BEmpty p h extra => [enc_bcell (snd p) h (cpf_b [] extra)]
+  | BShared p h rng e tl =>
+      [enc_bcell (snd p) h (cpf_exp_b p); (0x01AB, enc_rfx rng ++ cpf_b (encode_xlsb e) tl)]
+  | BArray p h rng flags e tl =>
+      [enc_bcell (snd p) h (cpf_exp_b p); (0x01AA, enc_rfx rng ++ [flags] ++ cpf_b (encode_xlsb e) tl)]
+  | BMember p h first => [enc_bcell (snd p) h (cpf_exp_b first)]
+  | BOther t d => [(t, d)]
+  end.
+
+(* the groups met so far, latest first: first cell ↦ (is it an array formula, its expression) *)
+Definition bgroups : Type := list (pos * (bool * expr)).
+Fixpoint glookup (first : pos) (g : bgroups) : option (bool * expr) :=
+  match g with
+  | [] => None
+  | (k, v) :: t => if pos_eqb k first then Some v else glookup first t
+  end.
+
+(* what a cell at [p] that uses group (array?, e) reports: the shared expression seen from p (relative
+   references are offsets from p, modulo 1048576 rows and 16384 columns); the array expression as it stands *)
+Definition group_text_b (p : pos) (g : bool * expr) : list N :=
+  if fst g then render_xlsb show_f64 (benv_at None) (snd g)
+  else render_xlsb show_f64 (benv_at (Some p)) (snd g).
+
+(* one cell per formula cell record, in stream order; a cell pointing at a cell that has not started
+   a group before it (the records of a group's first cell come first in a sheet: rows and columns
+   ascend) has no formula *)
+Fixpoint spec_formulas_b (g : bgroups) (l : list bitem) : list (pos * list N) :=
+  match l with
+  | [] => []
+  | BRow _ _ :: t | BOther _ _ :: t => spec_formulas_b g t
+  | BPlain p _ e _ :: t => (p, render_xlsb show_f64 (benv_at None) e) :: spec_formulas_b g t
+  | BEmpty p _ _ :: t => (p, []) :: spec_formulas_b g t
+  | BShared p _ _ e _ :: t => (p, group_text_b p (false, e)) :: spec_formulas_b ((p, (false, e)) :: g) t
+  | BArray p _ _ _ e _ :: t => (p, group_text_b p (true, e)) :: spec_formulas_b ((p, (true, e)) :: g) t
+  | BMember p _ first :: t =>
+      (p, match glookup first g with Some gr => group_text_b p gr | None => [] end) :: spec_formulas_b g t
+  end.
+
+(* ---------- the domain ---------- *)
+Definition wf_bhead (h : bhead) : bool :=
+  match h with
+  | HNum mid => (length mid =? 14)%nat
+  | HBool mid | HErr mid => (length mid =? 7)%nat
+  | HStr sty units grbit =>
+      (length sty =? 4)%nat && (length grbit =? 2)%nat && (N.of_nat (length units) <? 4294967296) &&
+      forallb (fun u => u <? 65536) units
+  end.
+Definition wf_bpos (p : pos) : bool := (fst p <? 4294967296) && (snd p <? 4294967296).
+Definition small_b (e : expr) : bool := N.of_nat (length (encode_xlsb e)) <? 4294967296.
+Definition first_of_b (it : bitem) : list pos :=
+  match it with BShared p _ _ _ _ | BArray p _ _ _ _ _ => [p] | _ => [] end.
+
+Definition wf_bitem (it : bitem) : bool :=
+  match it with
+  | BRow r _ => r <=? 0x100000
+  | BPlain p h e _ => wf_bpos p && wf_bhead h && wf_xlsb (benv_at None) e && small_b e
+  | BEmpty p h _ => wf_bpos p && wf_bhead h
+  | BShared p h _ e _ => wf_bpos p && wf_bhead h && wf_xlsb (benv_at (Some p)) e && small_b e
+  | BArray p h _ _ e _ => wf_bpos p && wf_bhead h && wf_xlsb (benv_at None) e && small_b e
+  | BMember p h first => wf_bpos p && wf_bhead h && wf_bpos first
+  | BOther t _ => negb ((t =? 0x0000) || (t =? 0x0008) || (t =? 0x0009) || (t =? 0x000A) || (t =? 0x000B) ||
+                        (t =? 0x0092) || (t =? 0x01AB) || (t =? 0x01AA))
+  end.
+(* every cell sits in the row announced by the BrtRowHdr before it ([row]: the row so far) *)
+Fixpoint rows_ok (row : N) (l : list bitem) : bool :=
+  match l with
+  | [] => true
+  | BRow r _ :: t => rows_ok r t
+  | BOther _ _ :: t => rows_ok row t
+  | BPlain p _ _ _ :: t | BEmpty p _ _ :: t | BShared p _ _ _ _ :: t | BArray p _ _ _ _ _ :: t
+  | BMember p _ _ :: t => (fst p =? row) && rows_ok row t
+  end.
+Definition wf_layout_b (l : list bitem) : Prop := forallb wf_bitem l = true /\ rows_ok 0 l = true.
+
+End XlsbSheet.
